@@ -11,6 +11,7 @@ const bool ordered = true;
 const char *stdout_marker = nullptr;
 const char *stdout_branch_marker = nullptr;
 const double numeric_rel_tol = 0;
+const bool exact_lattice_plans = false;
 const double conditioning_gate = 1e-2;
 
 enum { V_IMC = 1, V_MAP = 2, V_TWO = 4, V_GRID_SIMPLE = 8, V_BONDED = 16, V_FORCE = 32, V_MAP2 = 64 };
